@@ -31,6 +31,48 @@ CHECKS["C11"] = {
     "design_ref": "§7 C11",
 }
 
+BFT_NOTE = ("Model bounds: weights <3,1,1,1>, one faulty weight-1 validator, views <= 2 (bootstrapped at view 1), <= 2 blocks, 2 payloads; "
+            "vote collection abstracted to 'any formable certificate is receivable'. Code side: seeded schedules on real StateMachines with real "
+            "BLS keys over the harness engine; unforgeability and hash collision-freedom assumed; validity labels of harness-crafted certificates trusted.")
+CHECKS["C01"] = {
+    "category": "model_checking",
+    "technique": "TLA+ ChonkyBFT.tla checked by TLC (Agreement, StoreAppendOnly); TLC trace validation (TraceChonky.tla) of seeded adversarial runs of the real replicas",
+    "text": "Design-level: every interleaving / Byzantine choice of the bounded model is enumerated. Code-level: every event of every recorded run of the "
+            "real StateMachines (Byzantine equivocation with real signatures, loss/dup/reorder, crashes, block sync through EngineManager) is a TLC state in "
+            "which agreement and append-only are evaluated on the blocks actually persisted.",
+    "note": BFT_NOTE, "design_ref": "§7 C01",
+}
+CHECKS["C02"] = {
+    "category": "model_checking",
+    "technique": "TLA+ Justification.tla: ReproposalSound checked by TLC, its certificate table replayed into real high_vote/high_qc/get_implied_block (T3); CertUnique on ChonkyBFT.tla and on validated traces",
+    "text": "The re-proposal decision function is compared with the specification on every certificate of the bounded alphabet (150k+), the soundness "
+            "theorem is checked on the spec, and certificate uniqueness is an invariant of the system model and of every observed state of real runs.",
+    "note": BFT_NOTE, "design_ref": "§7 C02",
+}
+CHECKS["C03"] = {
+    "category": "model_checking",
+    "technique": "TLA+ ChonkyBFT.tla with crash actions checked by TLC; TLC trace validation of real replicas over a crashable engine that orders every send against every durable write",
+    "text": "Crash at every handler boundary and after every prefix of emitted messages in the model; on the code, crash injection at durable writes "
+            "(applied / not applied) and the send-vs-persist order observed without source change; equivocation, vote-after-timeout, view regression and "
+            "durable-before-visible evaluated by TLC per event.",
+    "note": BFT_NOTE, "design_ref": "§7 C03",
+}
+CHECKS["C05"] = {
+    "category": "model_checking",
+    "technique": "TLC trace validation: every step of the real StateMachine predicted by the TLA+ replica specification (Replica.tla) and compared; monitors for monotonicity, justification, self-justifying messages",
+    "text": "C05 states conformance to the replica specification: each recorded step (accept/reject, full post-state incl. vote caches, emitted messages, "
+            "proposer notification) must equal the TLA+ handler applied to the observed pre-state, for valid, stale, future, wrong-leader, wrong-chain, "
+            "unsigned and Byzantine-crafted inputs.",
+    "note": BFT_NOTE, "design_ref": "§7 C05",
+}
+CHECKS["C16"] = {
+    "category": "model_checking",
+    "technique": "TLA+ PrunableQueue.tla by TLC, all bounded operation sequences replayed on the real create_input_channel() (T2); cache-bound monitor by TLC on validated replica traces",
+    "text": "Queue: exhaustive operation sequences with exact output comparison. Replica bookkeeping: per-event snapshot of the four vote caches checked "
+            "against the committee-size bound, including future-view floods by faulty validators.",
+    "note": BFT_NOTE, "design_ref": "§7 C16",
+}
+
 NOT_YET = "check not built yet (construction in progress; see DESIGN.md §11 build order)"
 NA_REASONS = {}
 
